@@ -628,6 +628,12 @@ class SBytes:
         return SBytes(self.items * n)
 
     def __contains__(self, v):
+        if isinstance(v, (bytes, bytearray, SBytes)):
+            sub = list(v)
+            n = len(sub)
+            alts = [z3.And([bv(self.items[i + k]) == bv(sub[k]) for k in range(n)] + [z3.BoolVal(True)])
+                    for i in range(len(self.items) - n + 1)]
+            return bool(SBool(z3.Or(alts + [z3.BoolVal(False)])))
         return bool(SBool(z3.Or([bv(x) == bv(v) for x in self.items] + [z3.BoolVal(False)])))
 
     def find(self, sub, start=0):
